@@ -23,6 +23,10 @@ const TLV_PAYMENT_METADATA: u64 = 16;
 const TLV_TRAMPOLINE_INVOICE: u64 = 33001;
 const TLV_TRAMPOLINE_AMOUNT: u64 = 33003;
 
+/// Delay between attempts to reach the node when the payment's fate cannot
+/// be determined otherwise.
+const RETRY_DELAY: Duration = Duration::from_secs(1);
+
 /// HtlcManager is the main handler for htlcs. It aggregates htlcs into payments
 /// based on the payment hash.
 pub struct HtlcManager<B, N, P, S>
@@ -421,17 +425,16 @@ async fn payment_lifecycle<B, N, P, S>(
     P: PaymentProvider,
     S: Datastore,
 {
-    let state = match params.store.fetch_payment_info(&trampoline).await {
-        Ok(state) => state,
-        Err(e) => {
-            error!("Failed to fetch payment info: {:?}", e);
-            resolve(
-                &payments,
-                &trampoline,
-                HtlcAcceptedResponse::temporary_node_failure(),
-            )
-            .await;
-            return;
+    // Without the stored state we cannot know whether an outgoing payment is
+    // in flight, so the htlcs can be neither failed nor paid: keep them held
+    // and retry until the state can be read.
+    let state = loop {
+        match params.store.fetch_payment_info(&trampoline).await {
+            Ok(state) => break state,
+            Err(e) => {
+                error!("Failed to fetch payment info, retrying: {:?}", e);
+                tokio::time::sleep(RETRY_DELAY).await;
+            }
         }
     };
 
